@@ -1,6 +1,7 @@
 (* Props_C19.v — C19: clouds and hazes act only inside their declared pressure range. *)
 From Coq Require Import Reals List Lra.
 From TV Require Import Num ListNum ListNumR Model_C01 Proofs_C01 Model_C19 Proofs_C19.
+From TV Require Import NumIv Reflect.
 Import ListNotations.
 Local Open Scope R_scope.
 
@@ -69,3 +70,11 @@ Theorem C19_lee_layer : forall (a Q mix : R) (wn : list R),
   @lee_layer R RTNum true a Q mix wn = map (fun w => @lee_sigma R RTNum a Q w * mix) wn.
 Proof. intros. split; [apply lee_layer_outside|apply lee_layer_inside]. Qed.
 Print Assumptions C19_lee_layer.
+
+(* ---- the executed (interval) instance encloses the real-number instance the theorems above are about:
+   Reflect.transfer, proved once for every straight-line kernel from the Interval library's correctness lemmas;
+   `defined` lists the side conditions of the real-number side (non-zero denominators, positive logarithm arguments) ---- *)
+Theorem C19_lee_sigma_enclosed : forall aI bI cI a b c, encloses aI a -> encloses bI b -> encloses cI c ->
+  defined [a; b; c] lee_sigma_e -> encloses (@lee_sigma I.type IvTNum aI bI cI) (@lee_sigma R RTNum a b c).
+Proof. exact lee_sigma_transfer. Qed.
+Print Assumptions C19_lee_sigma_enclosed.
